@@ -395,6 +395,9 @@ _base_check_c10 = check
 def check(ctx):            # noqa: F811  (extends the rules above with the completeness half)
     _base_check_c10(ctx)
     framing(ctx, ctx.prog)
+    # "a client requesting a blob from a server that holds it ends with the verified blob": the announced length of every legal blob (up to and
+    # including 2 MiB) must be adoptable, and what the writer accepts is C01's business — those rule instances are evaluated here as well
+    R.share(ctx, "C01", {"C01-D4": "C10-D7", "C01-D5/GATE": "C10-D7/GATE"})
 
 
 def framing(ctx, prog):
@@ -483,6 +486,20 @@ def framing(ctx, prog):
         ("self.send_response(responses)", "responses and not self.transport.is_closing()", "whatever responses remain are sent at the end, unless the transport is closing", -1),
     ]
     R.effect_table(ctx, "C10-D6/FRAME", hr, hv, rows, "server: ")
+    # the idle watchdog (close_on_idle) waits for started_transfer, then for transfer_finished: both events bracket every transfer
+    st_ = hr.calls(dotted_name="self.started_transfer.set")
+    fi_ = hr.calls(dotted_name="self.transfer_finished.set")
+    sf_ = [c for c in hr.calls(name="sendfile")]
+    ok = len(st_) == 1 and bool(sf_) and hr.must_precede(sf_[0], lambda n: n is st_[0]) is None
+    ctx.ob("C10-D5/TIMEOUT", ok, hr.site(), "server: a transfer is announced to the idle watchdog before the first blob byte is sent (otherwise the watchdog closes a connection that is "
+           "busy sending a large blob)", func=hr.fi.qualname, key="C10-D5/TIMEOUT|started-before-send")
+    for c in st_:
+        p_ = hr.always_reaches(c, lambda n: any(n is f for f in fi_), stop=("exit", "raise"), include_exc=True)
+        ctx.ob("C10-D5/TIMEOUT", bool(fi_) and p_ is None, hr.site(c), "server: every announced transfer is marked finished on every way out, failures included (an announced transfer that "
+               "never finishes parks the watchdog forever: the idle timeout would no longer close that connection)", detail="" if p_ is None else "path " + hr.fmt_path(p_), func=hr.fi.qualname,
+               key="C10-D5/TIMEOUT|started-then-finished")
+        R.exact_gate(ctx, "C10-D5/TIMEOUT", hr, c, "download_request and blob.get_is_verified()", "server: …and a transfer is announced exactly when one starts (a verified blob was requested)",
+                     key="C10-D5/TIMEOUT|started-exact")
     t = unparse(hr.node)
     ok = all(f"{a} = request.{b}()" in t for a, b in (("address_request", "get_address_request"), ("availability_request", "get_availability_request"),
                                                       ("price_request", "get_price_request"), ("download_request", "get_blob_request")))
